@@ -305,6 +305,28 @@ impl LanguageServer for Server {
 impl Server {
     fn set_file_content(&mut self, uri: &Url, text: &str) {
         let path = UrlExt::to_file_path(uri);
+        // The file table is locked only briefly here: writing a salsa input waits until every
+        // snapshot task has finished, and those tasks read the file table.
+        let file_id = {
+            #[cfg(feature = "verif")]
+            crate::verif::emit(crate::verif::Event::VfsWriteWant);
+            let mut vfs = self.vfs.write().unwrap();
+            #[cfg(feature = "verif")]
+            let _verif_write = crate::verif::scope(
+                crate::verif::Event::VfsWriteHeld,
+                crate::verif::Event::VfsWriteReleased,
+            );
+            vfs.assign_or_get_file_id(path)
+        };
+        let text = Arc::from(text);
+        #[cfg(feature = "verif")]
+        crate::verif::emit(crate::verif::Event::SalsaWriteWant);
+        self.host.set_file_content(file_id, text);
+        #[cfg(feature = "verif")]
+        crate::verif::emit(crate::verif::Event::SalsaWriteDone);
+
+        // No snapshot is alive any more (only this thread creates them), so the salsa writes
+        // inside set_root_file cannot wait while the file table is locked.
         #[cfg(feature = "verif")]
         crate::verif::emit(crate::verif::Event::VfsWriteWant);
         let mut vfs = self.vfs.write().unwrap();
@@ -313,13 +335,6 @@ impl Server {
             crate::verif::Event::VfsWriteHeld,
             crate::verif::Event::VfsWriteReleased,
         );
-        let file_id = vfs.assign_or_get_file_id(path);
-        let text = Arc::from(text);
-        #[cfg(feature = "verif")]
-        crate::verif::emit(crate::verif::Event::SalsaWriteWant);
-        self.host.set_file_content(file_id, text);
-        #[cfg(feature = "verif")]
-        crate::verif::emit(crate::verif::Event::SalsaWriteDone);
         #[cfg(feature = "verif")]
         crate::verif::emit(crate::verif::Event::SalsaWriteWant);
         self.host.set_root_file(&mut *vfs, file_id);
